@@ -129,7 +129,9 @@ std::string Logic::disambiguateName(std::string const & protectedName, SRef sort
 //
 std::string Logic::protectName(std::string const & name, bool isInterpreted) const {
     assert(not name.empty());
-    if (not isInterpreted and (hasQuotableChars(name) or std::isdigit(name[0]) or isReservedWord(name))) {
+    // A name that the lexer would read as a number (digits first, or a minus sign followed by a digit) needs quotes too
+    bool const looksLikeNumber = std::isdigit(name[0]) or (name[0] == '-' and name.size() > 1 and std::isdigit(name[1]));
+    if (not isInterpreted and (hasQuotableChars(name) or looksLikeNumber or isReservedWord(name))) {
         return '|' + name + '|';
     }
     return name;
